@@ -57,6 +57,18 @@ def _root_local(f, o, depth=0):
     return p.l
 
 
+def _tie_broken_by_id(f, tc, idc):
+    """`match score_order { Equal => a_id.cmp(&b_id), o => o }`: an id comparison on the Equal edge of the total_cmp result."""
+    for t in tc:
+        for (sb, adt, m) in f.outcome_edges(t.dest.l):
+            if adt == "core::cmp::Ordering" and "Equal" in m:
+                others = [x for k, x in m.items() if k != "Equal" and x != m["Equal"]]
+                r = f.reachable_from([m["Equal"]], avoid=others)
+                if any(i.block in r for i in idc):
+                    return True
+    return False
+
+
 def run(rep, tier):
     prog = ix.load()
     rep.not_decided = "retrieval-set exactness, score values, counters after arbitrary histories, answers after loading interrupted flushes"
@@ -139,6 +151,14 @@ def run(rep, tier):
     from .anda import ATOMIC_WRITE_RX
     writes = [e for e in ins.calls_named(ATOMIC_WRITE_RX.pattern)] + [e for (e, fld) in ix.state_mutations(ins, ["postings", "buckets"])]
     early = [e for e in writes if not any(ins.dominates(v, e.block) for v in vac)]
+    # path-sensitive form of the not-live exemption (the test may be folded into a named flag): a write is fine if it cannot be
+    # reached on the assumption that `doc_tokens.contains_key(&id)` answered true
+    cks = [e for e in ins.calls_named(r"dashmap::DashMap::<K, V, S>::contains_key$") if "doc_tokens" in ix.recv_fields(ins, e)]
+    if early and cks:
+        live_reach = set()
+        for ck in cks:
+            live_reach |= valueflow.reachable_if_result(ins, ck, 1)
+        early = [e for e in early if e.block in live_reach or not valueflow.must_pass_ps(ins, {ck.block for ck in cks}, [e.block])]
     rep.ob("R11.2", "no-effect-before-vacancy-test|insert", bool(dte) and bool(vac) and bool(writes) and not early,
            "BM25Index::insert changes index state (%s) on a path that has not yet established that the id is new; an insert refused with "
            "AlreadyExists would leave that change behind" % (sorted(ix.recv_fields(ins, early[0])) if early else ""),
@@ -165,7 +185,7 @@ def run(rep, tier):
     tc = cmpf.calls_named(r"f32>::total_cmp$|<impl f32>::total_cmp$|f32::total_cmp$")
     idc = cmpf.calls_named(r"Ord::cmp$|<impl core::cmp::Ord for u64>::cmp$")
     thenw = cmpf.calls_named(r"Ordering::then_with$|Ordering::then$")
-    rep.ob("R11.3", "comparator-total|compare_scored_docs", bool(tc) and (bool(idc) or any(k.calls_named(r"::cmp$") for k in prog.closures_of(cmpf))) and bool(thenw),
+    rep.ob("R11.3", "comparator-total|compare_scored_docs", bool(tc) and (bool(idc) or any(k.calls_named(r"::cmp$") for k in prog.closures_of(cmpf))) and (bool(thenw) or _tie_broken_by_id(cmpf, tc, idc)),
            "compare_scored_docs orders by f32::total_cmp and breaks ties by document id", cmpf.file + ":%d" % cmpf.line)
     npart = []
     nsorts = 0
